@@ -33,14 +33,14 @@ ASSUMPTIONS = [
     "fast tier: destination variables (into/insinto/exeinto/docinto, *opts) are turned into --dest/--insoptions/--diroptions by the check the way the helper scripts do; that bash-side mapping itself is only exercised by the e2e tier",
     "Excl: options other than -m/-o/-g/-p in insopts/diropts/exeopts (external `install` fallback) belong to C32",
     "Excl: doins/doexe/dobin/... given a directory without -r (PMS does not say whether it is skipped or fatal); only dodoc and dohtml are required to reject it",
-    "Excl: symlinks as doins/dodoc arguments in EAPI 0-3 (PMS: undefined before doins-symlink); mode of files installed by plain dolib; compressed man pages (foo.1.gz); man page names with a language code AND -i18n in EAPI 2-3",
+    "Excl: symlinks as doins/dodoc arguments in EAPI 0-3 (PMS: undefined before doins-symlink); compressed man pages (foo.1.gz) and multi-character sections (foo.3pm: man3 vs man3pm); man page names with a language code AND -i18n in EAPI 2-3",
     "Excl: modes of implicitly created ancestor directories; ownership (runs as root, -o/-g not in the alphabet)",
     "Excl: helpers banned per EAPI (dohard 4+, dohtml/dolib 7+) are banned on the bash side and only checked by the e2e tier",
     "umask 022 during every invocation",
 ]
 BOUNDS = {
-    "quick": "fast: 15 helpers x EAPI {0,2,3,4,6,7,8} x up to 3 destinations x up to 3 option strings x 4-12 argument lists (~3.5k invocations); sym: all pairs of 61 sources x 47 link names; e2e: one session per helper x EAPI {0,4,7,8}",
-    "thorough": "fast: EAPI 0-8, all destinations {default,/,/usr,/opt/x,/opt/x/} x all option strings x all argument lists (~12k); sym: 150 sources x 110 links; e2e: every helper x EAPI 0-8 x {default, one option}",
+    "quick": "fast: 16 helpers x EAPI {0,2,3,4,6,7,8} x up to 3 destinations x up to 3 option strings x 4-12 argument lists (2362 invocations); sym: all 25 x 23 (source, link) pairs incl. un-normalised spellings; e2e: 86 real-daemon src_install sessions (27 per EAPI 0/4/8, 5 for EAPI 7)",
+    "thorough": "fast: EAPI 0-8, destinations {default,/,/usr,/opt/x,/opt/x/,dir with space} x all option strings x all argument lists (5419 invocations); sym: 131 x 76 pairs; e2e: 504 real-daemon sessions (56 per EAPI 0-8)",
 }
 
 PF = "vpkg-1.0"
@@ -74,7 +74,7 @@ def build_source_tree(top):
     os.symlink("f.txt", os.path.join(w, "l.txt"))
     wf("g/ok.txt", "ok\n")
     os.symlink("/nonexistent-c33/target", os.path.join(w, "g/dangling"))
-    for n in ("foo.1", "foo.de.1", "foo.pt_BR.1", "bar.3pm", "baz.n", "nosect"):
+    for n in ("foo.1", "foo.de.1", "foo.pt_BR.1", "bar.3", "baz.n", "nosect"):
         wf("man/" + n, n + "\n")
     wf("po/de.mo", "de\n")
     wf("po/en_GB.mo", "engb\n")
@@ -163,6 +163,8 @@ def expected(inv, w):
     args = inv["args"]
     recursive = "-r" in inv.get("flags", ())
     files, dirs = {}, {}
+    if inv.get("tier") == "e2e" and ((h == "dohard" and eapi >= 4) or (h in ("dohtml", "dolib") and eapi >= 7)):
+        return ("reject",)  # banned helpers (enforced by the helper scripts)
 
     def put_file(dst, src, mode):
         k = _src_kind(w, src)
@@ -189,7 +191,7 @@ def expected(inv, w):
                 put_file(_j(dest, os.path.basename(a)), a, 0o755)
         elif h in ("dolib.so", "dolib.a", "dolib"):
             dest = _j(st.get("into", "/usr"), "lib")
-            mode = {"dolib.so": 0o755, "dolib.a": 0o644, "dolib": None}[h]
+            mode = {"dolib.so": 0o755, "dolib.a": 0o644, "dolib": 0o644}[h]  # dolib: libopts default -m0644
             for a in args:
                 put_file(_j(dest, os.path.basename(a)), a, mode)
         elif h in ("doins", "doexe"):
@@ -305,7 +307,7 @@ def wire_options(inv):
     if h == "dosbin":
         return [f"--dest={q(into + '/sbin')}"]
     if h in ("dolib", "dolib.so", "dolib.a"):
-        lo = {"dolib.so": "-m0755", "dolib.a": "-m0644", "dolib": ""}[h]
+        lo = {"dolib.so": "-m0755", "dolib.a": "-m0644", "dolib": "-m0644"}[h]
         return [f"--dest={q(into + '/lib')}", f"--insoptions={q(lo)}"]
     if h == "doins":
         return [f"--dest={q(st.get('insinto', '/'))}", f"--insoptions={q(st.get('insopts', '-m0644'))}", f"--diroptions={q(st.get('diropts', '-m0755'))}"]
@@ -324,6 +326,18 @@ def wire_options(inv):
     if h in ("dodir", "keepdir"):
         return [f"--diroptions={q(st.get('diropts', '-m0755'))}"]
     return []
+
+
+def dest_dir(inv):
+    """The helper's destination directory (may be created even when nothing ends up in it)."""
+    h, st = inv["helper"], inv["state"]
+    into = st.get("into", "/usr")
+    return {
+        "dobin": _j(into, "bin"), "dosbin": _j(into, "sbin"), "dolib": _j(into, "lib"), "dolib.so": _j(into, "lib"),
+        "dolib.a": _j(into, "lib"), "doins": _j(st.get("insinto", "/")), "doexe": _j(st.get("exeinto", "/")),
+        "dodoc": _j("/usr/share/doc", PF, st.get("docinto", "")), "dohtml": _j("/usr/share/doc", PF, st.get("docinto", "") or "html"),
+        "doinfo": "/usr/share/info", "doman": "/usr/share/man", "domo": _j(into, "share/locale"),
+    }.get(h)  # fmt: skip
 
 
 def wire_args(inv):
@@ -525,9 +539,10 @@ def judge(inv, exp, got, w):
     allowed_dirs = set(edirs) | set(keep)
     for p in list(efiles) + list(edirs):
         allowed_dirs |= _ancestors(p if not p.endswith("/.keep*") else p[: -len("/.keep*")] + "/x")
-    for d in inv.get("pre_dirs", ()):
-        allowed_dirs.add(d)
-        allowed_dirs |= _ancestors(d)
+    for d in list(inv.get("pre_dirs", ())) + [dest_dir(inv)]:
+        if d:
+            allowed_dirs.add(d)
+            allowed_dirs |= _ancestors(d)
     for d, mode in edirs.items():
         if d == "/":
             continue
@@ -589,9 +604,9 @@ def fast_invocations(tier):
                 add("dodoc", eapi, {"docinto": docinto}, a, flags=["-r"])
         add("doinfo", eapi, {}, ["v.info"])
         add("doinfo", eapi, {}, ["v.info", "f.txt"])
-        for a in (["man/foo.1"], ["man/foo.de.1"], ["man/foo.pt_BR.1"], ["man/bar.3pm"], ["man/baz.n"], ["man/nosect"], ["man/foo.1", "man/bar.3pm"], ["man/foo.1", "man/nosect"]):
+        for a in (["man/foo.1"], ["man/foo.de.1"], ["man/foo.pt_BR.1"], ["man/bar.3"], ["man/baz.n"], ["man/nosect"], ["man/foo.1", "man/bar.3"], ["man/foo.1", "man/nosect"]):
             add("doman", eapi, {}, a)
-            if a[0] in ("man/foo.1", "man/foo.de.1", "man/bar.3pm"):
+            if a[0] in ("man/foo.1", "man/foo.de.1", "man/bar.3"):
                 add("doman", eapi, {}, a, i18n="fr")
         for into in intos:
             for a in (["po/de.mo"], ["po/en_GB.mo"], ["po/de.mo", "po/en_GB.mo"]):
@@ -776,16 +791,307 @@ def replay(case):
 
 
 # ------------------------------------------------------------------ e2e tier (real helper scripts on the real daemon)
+# One task = one EAPI chunk: a real EbuildProcessor runs the real "setup" phase once for an ebuild whose src_install
+# sources ${T}/verif-script.sh, then one real "install" phase per session with a freshly written script
+# (destination/option commands, then ONE helper call resolved through the EAPI's real helper PATH).
+E2E_CHUNK = 14
+# quick tier: indices into the base session list of e2e_invs (one or two sessions per helper; every reject rule);
+# EAPI 7 only adds the sessions whose verdict changes there (dolib/dohtml banned, dohard stays banned)
+QUICK_E2E = {0, 1, 3, 5, 6, 7, 8, 10, 11, 13, 15, 17, 18, 19, 20, 22, 24, 25, 27, 29, 31, 32, 33, 35, 36, 37, 38}
+QUICK_E2E_EAPI7 = {5, 7, 20, 29, 38}
+
+
+def e2e_invs(eapi, tier):
+    out = []
+
+    def add(helper, state=None, args=(), **kw):
+        inv = {"tier": "e2e", "helper": helper, "eapi": eapi, "state": dict(state or {}), "args": list(args)}
+        inv.update({k: v for k, v in kw.items() if v})
+        out.append(inv)
+
+    add("dobin", {}, ["f.txt"])
+    add("dobin", {"into": "/opt/x"}, ["x.sh", "f.txt"])
+    add("dobin", {"into": "/"}, ["f.txt"])
+    add("dosbin", {}, ["x.sh"])
+    add("dosbin", {"into": "/opt/x"}, ["f.txt"])
+    add("dolib.so", {}, ["lib/libv.so"])
+    add("dolib.a", {"into": "/opt/x"}, ["lib/libv.a"])
+    add("dolib", {}, ["lib/libv.so"])
+    add("doins", {}, ["f.txt"])
+    add("doins", {}, ["sp ace.txt"])
+    add("doins", {"insinto": "/opt/x", "insopts": "-m0600"}, ["f.txt", "x.sh"])
+    add("doins", {"insinto": "/usr", "diropts": "-m0700"}, ["p"], flags=["-r"])
+    add("doins", {"insinto": "/usr/share/v"}, ["d"], flags=["-r"])
+    add("doins", {"insinto": "/usr/share/v"}, ["g"], flags=["-r"])
+    add("doexe", {}, ["x.sh"])
+    add("doexe", {"exeinto": "/opt/x", "exeopts": "-m0700"}, ["f.txt"])
+    add("dodoc", {}, ["f.txt"])
+    add("dodoc", {"docinto": "sub"}, ["f.txt", "x.sh"])
+    add("dodoc", {}, ["p"])
+    add("dodoc", {}, ["p"], flags=["-r"])
+    add("doinfo", {}, ["v.info"])
+    add("doman", {}, ["man/foo.1", "man/bar.3"])
+    add("doman", {}, ["man/foo.de.1"])
+    add("doman", {}, ["man/foo.pt_BR.1"])
+    add("doman", {}, ["man/nosect"])
+    add("doman", {}, ["man/foo.1"], i18n="fr")
+    add("domo", {}, ["po/de.mo"])
+    add("domo", {"into": "/opt/x"}, ["po/en_GB.mo"])
+    add("dohtml", {}, ["h/i.html", "h/i.txt"])
+    add("dohtml", {}, ["h/hd"], flags=["-r"])
+    add("dodir", {}, ["/usr/share/x"])
+    add("dodir", {"diropts": "-m0700"}, ["/a", "/b/c"])
+    add("keepdir", {}, ["/var/lib/x"])
+    add("dosym", {}, ["/usr/bin/real", "/usr/bin/link"])
+    add("dosym", {}, ["../lib/real", "/deep/er/link"])
+    add("dosym", {}, ["real", "/usr/bin/"])
+    add("dosym", {}, ["real", "/usr/lib"])
+    add("dosym", {}, ["/usr/bin/real", "/usr/share/a/link"], flags=["-r"])
+    add("dohard", {}, ["/real", "/other/hard"], pre_files={"/real": "realfile\n"})
+    if tier == "quick":
+        keep = QUICK_E2E if eapi != 7 else QUICK_E2E_EAPI7
+        return [inv for i, inv in enumerate(out) if i in keep]
+    if tier == "thorough":
+        add("dobin", {"into": "/usr"}, ["sp ace.txt"])
+        add("doins", {"insinto": "/opt/x/", "insopts": "-m 0640"}, ["p/n.txt"])
+        add("doins", {}, ["l.txt"])
+        add("doexe", {"exeinto": "/usr/libexec/v"}, ["x.sh", "f.txt"])
+        add("dodoc", {"docinto": "a/b"}, ["f.txt"])
+        add("dodoc", {"docinto": "sub"}, ["f.txt", "p"], flags=["-r"])
+        add("doman", {}, ["man/baz.n"])
+        add("doman", {}, ["man/foo.de.1"], i18n="fr")
+        add("domo", {"into": "/"}, ["po/de.mo", "po/en_GB.mo"])
+        add("dohtml", {"docinto": "sub"}, ["h/i.css"])
+        add("dohtml", {}, ["h/hd"])
+        add("keepdir", {"diropts": "-m0700"}, ["/a", "/b/c"])
+        add("dodir", {}, ["/with space/d"])
+        add("dosym", {}, ["/new", "/usr/bin/link"], pre_files={"/usr/bin/link": "old\n"})
+        add("dosym", {}, ["/usr/bin/../lib/real", "usr/bin/link"], flags=["-r"])
+        add("dosym", {}, ["/", "/link"], flags=["-r"])
+        add("dohard", {}, ["/usr/bin/real", "/usr/bin/hard"], pre_files={"/usr/bin/real": "realfile\n"})
+    return out
+
+
 def e2e_sessions(tier):
-    return []
+    """[(eapi, chunk-index)]"""
+    eapis = [0, 4, 7, 8] if tier == "quick" else list(range(9))
+    out = []
+    for e in eapis:
+        n = len(e2e_invs(e, tier))
+        out += [(e, i) for i in range(0, n, E2E_CHUNK)]
+    return out
+
+
+def e2e_script(inv):
+    import shlex
+
+    lines = []
+    st = inv["state"]
+    for var, cmd in (("into", "into"), ("insinto", "insinto"), ("exeinto", "exeinto"), ("docinto", "docinto"), ("insopts", "insopts"), ("diropts", "diropts"), ("exeopts", "exeopts")):
+        if var in st:
+            lines.append(f"{cmd} {st[var] if var.endswith('opts') else shlex.quote(st[var])}")
+    for d in inv.get("pre_dirs", ()):
+        lines.append(f'mkdir -p "${{ED:-${{D}}}}"{shlex.quote(d)} || die')
+    for p, text in inv.get("pre_files", {}).items():
+        lines.append(f'mkdir -p "${{ED:-${{D}}}}"{shlex.quote(os.path.dirname(p))} || die')
+        lines.append(f'printf %s {shlex.quote(text)} > "${{ED:-${{D}}}}"{shlex.quote(p)} || die')
+    lines.append(" ".join([inv["helper"]] + [shlex.quote(a) for a in wire_args(inv)]))
+    return "".join(l + "\n" for l in lines)
+
+
+class _Daemon:
+    """Real daemon sessions for one EAPI."""
+
+    def __init__(self, eapi_n, top, w):
+        import logging
+        import signal
+        import types
+
+        logging.getLogger("pkgcore").setLevel(logging.CRITICAL)
+        from pkgcore import const
+        from pkgcore.ebuild import eapi as eapi_mod
+        from pkgcore.ebuild import ebd as ebd_mod
+        from pkgcore.ebuild import ebd_ipc, processor
+        from pkgcore.test.misc import FakeRepo
+
+        # processor.py installs a SIGTERM handler raising SystemExit; a pool worker must die on terminate()
+        signal.signal(signal.SIGTERM, signal.SIG_DFL)
+        self.processor, self.ebd_mod = processor, ebd_mod
+        eapi = eapi_mod.get_eapi(str(eapi_n))
+        d = os.path.join(top, "pkg")
+        os.makedirs(d)
+        path = os.path.join(d, f"{PF}.ebuild")
+        with open(path, "w") as f:
+            f.write(f'EAPI={eapi_n}\nDESCRIPTION="x"\nSLOT=0\nsrc_install() {{\n\tcd "${{WORKDIR}}" || die\n\tsource "${{T}}/verif-script.sh"\n}}\n')
+        self.pkg = types.SimpleNamespace(
+            category=CATEGORY, PF=PF, P=PF, PN=PN, PV="1.0", PR="r0", PVR="1.0", eapi=eapi, ebuild=types.SimpleNamespace(path=path),
+            data={}, use=(), fullslot=SLOT, slot=SLOT, chost=None, cbuild=None, ctarget=None, restrict=(),
+        )  # fmt: skip
+        env = {}
+        for k, sub in (("T", "temp"), ("D", "image"), ("HOME", "home"), ("PKGCORE_EMPTYDIR", "empty")):
+            env[k] = os.path.join(d, sub)
+            os.makedirs(env[k])
+        env["WORKDIR"] = w
+        env["ROOT"] = "/"
+        env["PKGCORE_PREFIX_SUPPORT"] = "false"
+        if eapi.options.prefix_capable:
+            env.update(ED=env["D"], EROOT="/", EPREFIX="", PKGCORE_PREFIX_SUPPORT="true")
+        if eapi.options.has_sysroot:
+            env.update(SYSROOT="/", ESYSROOT="/", BROOT="")
+        env["PKGCORE_PKG_REPO"] = "verif"
+        env["FEATURES"] = ""
+        env["PKGCORE_EAPI_FUNCS"] = " ".join(eapi.bash_funcs)
+        processor.expected_ebuild_env(self.pkg, env)
+        # as ebd._set_per_phase_env composes it for src_install
+        env["PATH"] = os.pathsep.join(
+            list(const.PATH_FORCED_PREPEND) + list(eapi.helpers.get("global", ())) + list(eapi.helpers.get("src_install", ())) + os.environ.get("PATH", "/usr/bin:/bin").split(os.pathsep)
+        )
+        self.env = env
+        self.ED = env.get("ED", env["D"]).rstrip("/")
+        op = types.SimpleNamespace(pkg=self.pkg, observer=_Obs(), env=env, ED=env.get("ED", env["D"]), userpriv=False, domain=types.SimpleNamespace(all_installed_repos=FakeRepo(()), root="/"))
+        self.handlers = {k: getattr(ebd_ipc, v)(op) for k, v in HELPER_CLASS.items()}
+        self.handlers["request_bashrcs"] = lambda e: e.write("end_request")
+        self.handlers["filter_env"] = ebd_ipc.FilterEnv(op)
+        self.script = os.path.join(env["T"], "verif-script.sh")
+        with open(self.script, "w") as f:
+            f.write(":\n")
+        self._phase("setup")
+        self.saved_env = os.path.join(d, "environment.after-setup")
+        shutil.copy(os.path.join(env["T"], "environment"), self.saved_env)
+
+    def _phase(self, phase):
+        devnull = os.open(os.devnull, os.O_RDWR)
+        try:
+            return self.ebd_mod.run_generic_phase(self.pkg, phase, self.env, False, False, fd_pipes={0: devnull, 1: devnull, 2: devnull}, extra_handlers=self.handlers, tmpdir=self.env["T"])
+        finally:
+            os.close(devnull)
+
+    def run(self, inv):
+        shutil.copy(self.saved_env, os.path.join(self.env["T"], "environment"))
+        shutil.rmtree(self.env["D"], ignore_errors=True)
+        with open(self.script, "w") as f:
+            f.write(e2e_script(inv))
+        old_umask = os.umask(0o022)
+        try:
+            try:
+                self._phase("install")
+                out = ("ok", 0)
+            except Exception as e:
+                out = ("reject", f"{type(e).__name__}: {e}"[:300])
+        finally:
+            os.umask(old_umask)
+        files, dirs = snapshot(self.ED) if os.path.isdir(self.ED) else ({}, {})
+        return out + (files, dirs)
+
+    def close(self):
+        try:
+            self.processor.shutdown_all_processors()
+        except Exception:
+            pass
+
+
+def _e2e_check(daemon, inv, w):
+    exp = expected(inv, w)
+    if exp is None:
+        return None, "excluded"
+    got = daemon.run(inv)
+    return judge(inv, exp, got, w)
 
 
 def e2e_work(tier, idx):
-    return {"evals": 0, "classes": {}, "viol": [], "samples": []}
+    eapi, lo = e2e_sessions(tier)[idx]
+    invs = e2e_invs(eapi, tier)[lo : lo + E2E_CHUNK]
+    top = _scratch()
+    evals, classes, viol = 0, {}, []
+    daemon = None
+    try:
+        w = build_source_tree(top)
+        daemon = _Daemon(eapi, top, w)
+        for inv in invs:
+            fails, cls = _e2e_check(daemon, inv, w)
+            if fails is None:
+                classes["e2e/excluded"] = classes.get("e2e/excluded", 0) + 1
+                continue
+            evals += 1
+            k = f"e2e/{inv['helper']}/{_eapi_group(eapi)}/{cls}"
+            classes[k] = classes.get(k, 0) + 1
+            if fails:
+                viol.append(dict(inv, fail=fails[0][0], msg=f"[real daemon] {e2e_script(inv).strip()!r} in src_install (EAPI {eapi}): {fails[0][1]}"))
+    finally:
+        if daemon is not None:
+            daemon.close()
+        shutil.rmtree(top, ignore_errors=True)
+    return {"evals": evals, "classes": classes, "viol": viol, "samples": [invs[0]]}
 
 
 def e2e_replay(case):
-    return []
+    inv = {k: v for k, v in case.items() if k not in ("msg", "fail")}
+    top = _scratch()
+    daemon = None
+    try:
+        w = build_source_tree(top)
+        daemon = _Daemon(inv["eapi"], top, w)
+        fails, _ = _e2e_check(daemon, inv, w)
+        return [m for _, m in (fails or [])]
+    finally:
+        if daemon is not None:
+            daemon.close()
+        shutil.rmtree(top, ignore_errors=True)
 
 
-CLASSIFIERS = {}
+# ------------------------------------------------------------------ classifiers for known findings
+def _c_doman_i18n(case):
+    """doman -i18n=<lang>: the option is declared store_true (internal error) and ignored before EAPI 4."""
+    return case.get("helper") == "doman" and bool(case.get("i18n"))
+
+
+def _c_doman_lang_underscore(case):
+    """doman language code ll_CC in the file name is not recognised (regex lacks the underscore)."""
+    return (
+        case.get("helper") == "doman"
+        and not case.get("i18n")
+        and case.get("eapi", 0) >= 2
+        and case.get("fail") in ("missing", "extra")
+        and any((ls := _lang_split(os.path.basename(a))) and "_" in ls[1] for a in case.get("args", ()))
+    )
+
+
+def _c_dohtml_recursive_filter(case):
+    """dohtml -r installs files whose extension is not allowed."""
+    return case.get("helper") == "dohtml" and "-r" in case.get("flags", ()) and case.get("fail") == "extra"
+
+
+def _c_dosym_host_dir(case):
+    """dosym rejects a link name that is a directory on the build host although absent from the image."""
+    a = case.get("args", ())
+    return case.get("helper") == "dosym" and case.get("fail") == "failed" and len(a) == 2 and not a[1].endswith("/") and os.path.isdir(a[1]) and _j(a[1]) not in case.get("pre_dirs", ())
+
+
+def _c_dohard_host_source(case):
+    """dohard hands an absolute source to os.link() unprefixed (host path instead of ${ED})."""
+    a = case.get("args", ())
+    return case.get("helper") == "dohard" and case.get("fail") == "failed" and len(a) == 2 and a[0].startswith("/") and case.get("eapi", 9) < 4
+
+
+SYMLINK_SOURCES = ("l.txt", "d", "g")
+
+
+def _c_install_symlink_deref(case):
+    """_install stat()s / utime()s through symlink sources: dangling links and -p on links fail."""
+    return (
+        case.get("helper") == "doins"
+        and case.get("fail") == "failed"
+        and case.get("eapi", 0) >= 4
+        and any(a.rstrip("/") in SYMLINK_SOURCES for a in case.get("args", ()))
+        and ("g" in case.get("args", ()) or "-p" in case.get("state", {}).get("insopts", "").split())
+    )
+
+
+CLASSIFIERS = {
+    "doman-i18n-option-unusable": _c_doman_i18n,
+    "doman-language-code-with-territory": _c_doman_lang_underscore,
+    "dohtml-recursive-ignores-extension-filter": _c_dohtml_recursive_filter,
+    "dosym-directory-test-on-build-host": _c_dosym_host_dir,
+    "dohard-absolute-source-is-host-path": _c_dohard_host_source,
+    "install-dereferences-symlink-sources": _c_install_symlink_deref,
+}
